@@ -31,7 +31,8 @@ LEVEL_NOTE = (
 RULE = (
     "cases = generated durative problems (vk.gen.temporal with t2s profile: start/end/over-all conditions in the four open/closed "
     "forms, start/end effects, fixed/closed/open/left-/right-open durations with constant, parameter-, static-fluent- and "
-    "fluent-dependent bounds, with and without problem epsilon). Per problem all reference-valid plans of the compiled problem of "
+    "fluent-dependent bounds, intervals not wider than the time step, with and without problem epsilon; durative actions that "
+    "change a fluent at start and set it again at end, guarded by a start condition, plus readers of that fluent). Per problem all reference-valid plans of the compiled problem of "
     "length <= K (DFS, node cap) are enumerated and up to PLANS of them converted back. evaluations = converted plans judged. "
     "distinct_nontrivial = distinct (problem, compiled plan) with >= 1 durative step whose duration interval is not a closed "
     "constant interval."
@@ -53,6 +54,8 @@ PROFILE = dict(
     fluent_duration=0.45,
     interval_duration=0.7,
     epsilon=0.4,
+    narrow_duration=0.35,
+    locks=0.35,
 )
 
 
@@ -102,6 +105,48 @@ def valid_plans(pb, rng, b):
     return out, not truncated
 
 
+def _fluent_names(e, out):
+    if isinstance(e, list):
+        if e and e[0] == "f":
+            out.add(e[1])
+        for a in e[1:]:
+            _fluent_names(a, out)
+    return out
+
+
+def recipe_classes(rec):
+    """Workload classes read off the recipe: narrow = {action: form} for duration intervals that are open on at least one side and
+    not wider than the time step (width known syntactically: constant bounds or upper = lower + constant); locks = {action: fluent}
+    for durative actions with a start condition on, a start effect on and an end effect on one fluent; reads = {action: fluents
+    in its conditions}."""
+    step = Fraction(rec["epsilon"]) if "epsilon" in rec else Fraction(1, 100)
+    narrow, locks, reads = {}, {}, {}
+    for a in rec["actions"]:
+        if "duration" not in a:
+            reads[a["name"]] = _fluent_names(["and"] + a["pre"], set())
+            continue
+        reads[a["name"]] = _fluent_names(["and"] + [c for _, c in a["conds"]], set())
+        d = a["duration"]
+        if d[0] in ("open", "lopen", "ropen"):
+            lo, hi = d[1], d[2]
+            w = None
+            if lo[0] in ("i", "r") and hi[0] in ("i", "r"):
+                w = Fraction(hi[1]) - Fraction(lo[1])
+            elif hi[0] == "plus" and hi[1] == lo and hi[2][0] in ("i", "r"):
+                w = Fraction(hi[2][1])
+            if w is not None and 0 < w <= step:
+                narrow[a["name"]] = d[0]
+        sc = set()
+        for iv, c in a["conds"]:
+            if iv == ["point", ["start", "0"]]:
+                _fluent_names(c, sc)
+        se = {e["fluent"][1] for t, e in a["effects"] if t == ["start", "0"]}
+        ee = {e["fluent"][1] for t, e in a["effects"] if t == ["end", "0"]}
+        for f in sorted(sc & se & ee):
+            locks[a["name"]] = f
+    return narrow, locks, reads, ("explicit-epsilon" if "epsilon" in rec else "default-step")
+
+
 def interval_class(act):
     """'closed-constant' | form + ':' + bound kind of a durative action's duration."""
     d = act.duration
@@ -115,15 +160,30 @@ def interval_class(act):
 _ANY = object()
 
 
-def _ground_key(pb, fexp, params):
+def _ground_key(pb, fexp, params, states=()):
     """(fluent name, ground args) of a lifted fluent expression under a parameter binding; an argument that mentions a
-    quantified / forall variable is the wildcard _ANY; None if an argument cannot be evaluated without a state."""
-    from vk.ref.evalx import Interp, ev, UNDEF, free_vars
+    quantified / forall variable is the wildcard _ANY; a state-dependent argument (an object-valued fluent used as argument,
+    `f(g)`) is the frozenset of the values it takes in `states` (the reference states during the step); None if an argument
+    cannot be evaluated."""
+    from vk.ref.evalx import Interp, ev, UNDEF, free_vars, fluents_in
 
     args = []
     for a in fexp.args:
         if free_vars(a):
             args.append(_ANY)
+            continue
+        if fluents_in(a):
+            vals = set()
+            for st in states:
+                try:
+                    x = ev(a, Interp(pb, st, params), "strict")
+                except Unsupported:
+                    return None
+                if x is not UNDEF:
+                    vals.add(x)
+            if not vals:
+                return None
+            args.append(frozenset(vals))
             continue
         try:
             x = ev(a, Interp(pb, {}, params), "strict")
@@ -135,8 +195,18 @@ def _ground_key(pb, fexp, params):
     return (fexp.fluent().name, tuple(args))
 
 
+def _arg_match(a, b):
+    if a is _ANY or b is _ANY:
+        return True
+    if isinstance(a, frozenset):
+        return bool(a & b) if isinstance(b, frozenset) else b in a
+    if isinstance(b, frozenset):
+        return a in b
+    return a == b
+
+
 def _same_ground(k1, k2):
-    return k1 is not None and k2 is not None and k1[0] == k2[0] and all(a is _ANY or b is _ANY or a == b for a, b in zip(k1[1], k2[1]))
+    return k1 is not None and k2 is not None and k1[0] == k2[0] and all(_arg_match(a, b) for a, b in zip(k1[1], k2[1]))
 
 
 def _fluent_exps(e, out):
@@ -159,10 +229,15 @@ def _several_effects(act, pred):
     return False
 
 
-def _aliasing(pb, step):
+def _aliasing(pb, step, trace=()):
     """A start effect of this durative step writes a ground fluent that the same action later reads or writes (condition,
-    end-effect target / value / condition) through a syntactically different lifted expression."""
-    _, a, args, _ = step
+    end-effect target / value / condition) through a syntactically different lifted expression (other parameter / constant /
+    quantified variable / an object-valued fluent as argument, evaluated in the reference states during the step)."""
+    s0, a, args, d0 = step
+    states = [st for t, st in trace if t is not None and s0 <= t <= s0 + (d0 or 0)]
+    before = [st for t, st in trace if t is None or t < s0]
+    if before:
+        states.append(before[-1])
     params = {p.name: x for p, x in zip(a.parameters, args)}
     later = []
     for cl in a.conditions.values():
@@ -178,11 +253,11 @@ def _aliasing(pb, step):
                 _fluent_exps(e.value, later)
                 _fluent_exps(e.condition, later)
     for sfl in starts:
-        k = _ground_key(pb, sfl, params)
+        k = _ground_key(pb, sfl, params, states)
         if k is None:
             continue
         for g in later:
-            if g is not sfl and _same_ground(_ground_key(pb, g, params), k):
+            if g is not sfl and _same_ground(_ground_key(pb, g, params, states), k):
                 return True
     return False
 
@@ -190,7 +265,7 @@ def _aliasing(pb, step):
 CAUSES = ("start-effect-aliasing", "several-assignments-to-one-fluent", "accumulated-incdec")
 
 
-def structural_causes(pb, steps, upto):
+def structural_causes(pb, steps, upto, trace=()):
     from unified_planning.model import DurativeAction
 
     out = set()
@@ -198,7 +273,7 @@ def structural_causes(pb, steps, upto):
         a = steps[k][1]
         if not isinstance(a, DurativeAction):
             continue
-        if _aliasing(pb, steps[k]):
+        if _aliasing(pb, steps[k], trace):
             out.add(CAUSES[0])
         if _several_effects(a, lambda e: e.is_assignment()):
             out.add(CAUSES[1])
@@ -232,7 +307,7 @@ def classify(pb, cpb, path, steps, f, v):
         upto = int(f["src"])
     if any(d is not None and d == 0 for _, _, _, d in steps[: upto + 1]):
         return "zero-duration-chosen"
-    cs = structural_causes(pb, steps, upto)
+    cs = structural_causes(pb, steps, upto, v.trace)
     for c in CAUSES:
         if c in cs:
             return c
@@ -251,8 +326,6 @@ def run_case(key, tier, b, res):
 
     rng = rng_for(key)
     rec, feats = gen_temporal(rng, PROFILE)
-    if "epsilon" in rec and Fraction(rec["epsilon"]) >= Fraction(1, 2):
-        rec["epsilon"] = "1/10"
     import unified_planning.environment as upenv
 
     e = _env.fresh_env()
@@ -314,6 +387,7 @@ def _run_case(key, tier, b, res, rng, rec, e):
     def klass(path):
         return sorted({interval_class(name_to_orig[a.name]) for a, _ in path if isinstance(name_to_orig[a.name], DurativeAction)})
 
+    narrow, locks, reads, stepkind = recipe_classes(rec)
     rng.shuffle(plans)
     plans.sort(key=lambda p: (not any(k != "fixed:constant" and k != "closed:constant" for k in klass(p)), len(p)))
     pid = h(rec)
@@ -342,6 +416,11 @@ def _run_case(key, tier, b, res, rng, rec, e):
         kl = klass(path)
         for k in kl:
             res.count("interval:" + k)
+        names = [a.name for a, _ in path]
+        for nm in sorted({n for n in names if n in narrow}):
+            res.count(f"narrow-interval:{narrow[nm]}:{stepkind}")
+        if any(names[i] in locks and locks[names[i]] in reads.get(names[j], ()) for i in range(len(names)) for j in range(i + 1, len(names))):
+            res.count("lock:changed-and-reset-fluent-read-by-a-later-step")
         # the converted plan must be the same instances in the same order
         if [(a.name, tuple(args)) for _, a, args, _ in steps] != [(a.name, tuple(args)) for a, args in path]:
             res.case()
@@ -387,6 +466,9 @@ def thresholds(m):
         n = c.get(f"interval:{form}:constant", 0) + c.get(f"interval:{form}:state-dependent", 0)
         if n < 3:
             out.append(f"fewer than 3 converted plans with a step whose duration interval is {form} ({n})")
+    for k in ("narrow-interval:open:explicit-epsilon", "narrow-interval:open:default-step", "lock:changed-and-reset-fluent-read-by-a-later-step"):
+        if c.get(k, 0) < 3:
+            out.append(f"fewer than 3 converted plans in class {k} ({c.get(k, 0)})")
     sd = sum(v for k, v in c.items() if k.startswith("interval:") and k.endswith(":state-dependent"))
     if sd < 5:
         out.append(f"fewer than 5 converted plans with a state-/parameter-dependent duration bound ({sd})")
